@@ -259,8 +259,14 @@ def build(spec):
     an_pairs = [tuple(p) for p in (spec.get('analysis') or [])]
     st = encode_text(st_pairs, delim, lead=spec.get('stext_lead', True)).encode(ENC) \
         if st_pairs else b''
+    if spec.get('stext_blank'):
+        st = (spec['stext_blank'][0] * spec['stext_blank'][1]).encode(ENC)
     an = encode_text(an_pairs, delim, lead=spec.get('analysis_lead', True)).encode(ENC) \
         if an_pairs else b''
+    if spec.get('analysis_raw') is not None:
+        an = spec['analysis_raw'].encode(ENC)
+        cls_, an_d = tokenize(spec['analysis_raw'], delim, True)
+        an_pairs = list(an_d.items()) if cls_ in ('ok', 'tol') else []
     names = spec.get('names') or ['P%d' % (j + 1) for j in range(D)]
     pne = spec.get('pne') or ['0,0'] * D
 
